@@ -44,6 +44,17 @@ def make_state(B, kind, n, h=None, a=None):
         st = nn.DensityMatrix(n, h, a, gpu=False)
         # the phase network's auxiliary bias is held at its documented value 0
         P = {"am": load_rbm(B, st.rbm_am, "am"), "ph": load_rbm(B, st.rbm_ph, "ph", zero=("aux_bias",))}
+    elif kind == "complex-module":
+        # built from a user-supplied RBM: rbm_am is that module, rbm_ph an independent copy of it
+        from qucumber.rbm import BinaryRBM
+
+        st = nn.ComplexWaveFunction(n + 1, module=BinaryRBM(n, h, gpu=False), gpu=False)
+        P = {"am": load_rbm(B, st.rbm_am, "am"), "ph": load_rbm(B, st.rbm_ph, "ph")}
+    elif kind == "mixed-module":
+        from qucumber.rbm import PurificationRBM
+
+        st = nn.DensityMatrix(n + 1, module=PurificationRBM(n, h, a, gpu=False), gpu=False)
+        P = {"am": load_rbm(B, st.rbm_am, "am"), "ph": load_rbm(B, st.rbm_ph, "ph", zero=("aux_bias",))}
     else:
         raise ValueError(kind)
     return st, P
